@@ -68,7 +68,7 @@ fn map_map(
     let (cel, mut bindings) = helpers::setup_context(ctx);
     let mut mapped = Vec::new();
 
-    for key in map.into_keys() {
+    for key in helpers::sorted_keys(map).into_iter() {
         let value: CelValue = key.into();
         bindings.bind_param(ident_name, value.clone());
         let interp = Interpreter::new(&cel, &bindings);
